@@ -353,7 +353,10 @@ def replay_generated(ctx):
     tp = ctx.path("gen_trace.ndjson")
     vlib.run_bin("docset_driver", ["cases", "--in", cp, "--out", tp] + UNSTEER, timeout=900, mem_gb=12)
     ev = vlib.read_ndjson(tp)
-    n = validate(ctx, ev, "gen")
+    # judged in chunks (a thorough trace has ~3,000 scorer lines with sequences of up to 20,000 documents)
+    n = 0
+    for j in range(0, len(ev), 700):
+        n += validate(ctx, ev[j:j + 700], f"gen{j // 700}")
     ctx.sample({"kind": "TLC-enumerated call program, concretised on the stripe index and run on a real scorer",
                 "abstract": cases[len(cases) // 2], "scorer": next(e for e in ev if e.get("ev") == "scorer")["q"]})
     log(f"[R] {len(cases)} programs enumerated by TLC, {sum(len(g['progs']) for g in groups.values())} runs in {len(groups)} (recipe, scoring, S, r) groups, {n} accepted")
